@@ -1,5 +1,6 @@
 import Acra.Model.ParserAligned
 import Acra.Lemmas.Bits
+import Acra.Lemmas.ReviewC08Records
 namespace Acra.Props.C08
 open Acra.Py Acra.Model.ParserAligned Acra.Gen.ParserAligned
 
@@ -77,4 +78,33 @@ theorem ParserAlignedPacket_items_le (t : Packet) (buf : Bytes) (h : (Packet.unp
     have := decOff_items_le decBlock moreLt buf decBlock_progress _ 0 bs hd
     simpa using this
 
+/-- [review] the per-iteration bound for the loop step: an accepted block advances by `4·quadbytes`, at least
+    the 8-byte header and never past the end of the buffer -/
+theorem decBlock_advance_ge (b : Bytes) (x : Block) (n : Nat) (h : decBlock b = .ok (x, n)) :
+    8 ≤ n ∧ n ≤ b.length := by
+  simp only [decBlock] at h
+  split at h
+  · rename_i blk m hm
+    simp only [Except.ok.injEq, Prod.mk.injEq] at h
+    have := ParserAlignedBlock_advance Block.fresh b m (by rw [hm])
+    omega
+  · simp at h
+
+/-- [review] witness: two blocks (quadbytes 3 with a 4-byte payload, quadbytes 2) -/
+def wPAP : Bytes := [0, 3, 0, 1, 0, 2, 0, 5, 1, 2, 3, 4,  0, 2, 0, 0, 0, 0, 0, 0]
+example : (Packet.unpack Packet.fresh wPAP).2 = .ok () ∧ (Packet.unpack Packet.fresh wPAP).1.parserblocks.length = 2 := ⟨by rfl, by rfl⟩
+example : (Block.unpack Block.fresh wPAP).2 = .ok 12 := by rfl
+example : decBlock wPAP = .ok ({ Block.fresh with quadbytes := 3, messagecount := 0, busid := 1, elapsedtime := 131077, payload := [1, 2, 3, 4] }, 12) := by rfl
+
+/-- [review] work bound with the real stride: at most `|buf| / 8` blocks -/
+theorem ParserAlignedPacket_items_stride (t : Packet) (buf : Bytes) (h : (Packet.unpack t buf).2 = .ok ()) :
+    (Packet.unpack t buf).1.parserblocks.length * 8 ≤ buf.length := by
+  revert h
+  simp only [Packet.unpack]
+  cases hd : decOff decBlock moreLt buf (buf.length + 1) 0 with
+  | error e => simp
+  | ok bs =>
+    intro _
+    have := Acra.Lemmas.ReviewC08.decOff_items_stride_exact decBlock moreLt buf 8 decBlock_advance_ge _ 0 bs hd
+    simpa using this
 end Acra.Props.C08
